@@ -67,6 +67,14 @@ type PairConfig struct {
 	HostSpelling   string              // "127.0.0.1" (default) or "localhost" in the upstream URL
 	Domain         string              // DNS tunnel domain
 	ExtraUpstreams []upstream.Upstream // tried before the pair's own upstream (C16)
+	HTTPEndpoints  []EndpointSpec      // websocket paths of an http(s) server (default: /ws/all with AllowList)
+	HTTPPath       string              // path the client connects to (default /ws/all)
+}
+
+// EndpointSpec is one websocket path with its own allow-list.
+type EndpointSpec struct {
+	Path  string
+	Allow []string
 }
 
 // Pair is a running client/server pair.
@@ -139,14 +147,24 @@ func buildEndpoints(cfg *PairConfig, p *Pair) (server.Server, upstream.Upstream,
 	case CarHTTP, CarHTTPS:
 		port := Port()
 		p.SrvPort = port
-		srv := &server.HttpServer{ServerConfig: sc, Address: addr.MustParseAddress(fmt.Sprintf("%s://127.0.0.1:%d", cfg.Carrier, port)),
-			Endpoints: server.WebsocketEndpointList{server.HttpEndpoint{Endpoint: "/ws/all", Channels: cfg.AllowList}}}
+		eps := server.WebsocketEndpointList{}
+		for _, e := range cfg.HTTPEndpoints {
+			eps = append(eps, server.HttpEndpoint{Endpoint: e.Path, Channels: e.Allow})
+		}
+		if len(eps) == 0 {
+			eps = server.WebsocketEndpointList{server.HttpEndpoint{Endpoint: "/ws/all", Channels: cfg.AllowList}}
+		}
+		path := cfg.HTTPPath
+		if path == "" {
+			path = "/ws/all"
+		}
+		srv := &server.HttpServer{ServerConfig: sc, Address: addr.MustParseAddress(fmt.Sprintf("%s://127.0.0.1:%d", cfg.Carrier, port)), Endpoints: eps}
 		cport := port
 		if cfg.ViaRelay {
 			p.Relay = NewRelay(HostPort(port))
 			cport = p.Relay.Port
 		}
-		up := &upstream.Http{Address: addr.MustParseAddress(fmt.Sprintf("%s://%s:%d/ws/all", cfg.Carrier, host, cport))}
+		up := &upstream.Http{Address: addr.MustParseAddress(fmt.Sprintf("%s://%s:%d%s", cfg.Carrier, host, cport, path))}
 		return srv, up, nil
 	case CarStdio, CarStdioTLS:
 		c2sR, c2sW := osPipe()
